@@ -105,6 +105,16 @@ def run_for(pid, mod, seed=0):
         sid = os.path.basename(d)
         if pid in det.get(sid, ()):
             items.append((pid, f"seed:{sid}", "patch", os.path.join(d, "patch.diff"), "fire", base))
+    # independent behaviour-preserving refactorings (/verif/twins): every check must stay silent on every one of them
+    try:
+        not_req = json.load(open(os.path.join(VERIF, "twins", "EXPECTED.json")))["not_required_silent"]
+    except OSError:
+        not_req = {}
+    for d in sorted(glob.glob(os.path.join(VERIF, "twins", "*", "patch.diff"))):
+        tid = os.path.basename(os.path.dirname(d))
+        if tid in not_req and pid == tid.split("-")[0]:
+            continue
+        items.append((pid, f"twinpatch:{tid}", "patch", d, "silent", base))
     out = {"variants": len(items), "fired": 0, "silent_ok": 0, "skipped": [], "failed": [], "details": []}
     if not items:
         return out
